@@ -52,7 +52,7 @@ def load_seeds():
 
 def run_lexer_hook(inputs, timeout=300):
     """inputs: list of bytes. Returns list of dict(t, e, n, p) (None where the process died)."""
-    hook = common.build_hook("lexer")
+    hook = os.environ.get("C13_LEXER_HOOK") or common.build_hook("lexer")
     res = [None] * len(inputs)
     start = 0
     while start < len(inputs):
@@ -266,7 +266,7 @@ def check_output(ok, panic, text, files_abs, libs_dir=None):
     if not ok and nerr > 0 and inside == 0:
         first = ERR_LINE.search(text)
         msg = text[first.end():].splitlines()[0].strip() if first else "?"
-        msg = re.sub(r"'[^']*'|\"[^\"]*\"|\d+|/\S+", "_", msg)[:60]
+        msg = " ".join(re.sub(r"'[^']*'|\"[^\"]*\"|\d+|/\S+", "_", msg).split()[:2])
         bad.append(("noloc:" + msg, "failed without any error located inside an input file (first error: %s)" % msg))
     return bad
 
@@ -553,3 +553,372 @@ def setup():
         gen_coq()
     except PortOutdated as e:
         print("C13 setup: translator failed:", e)
+
+# ------------------------------------------------------------------------------------------------ lexer correspondence
+
+KIND_NAMES = {b"identifier": "k_ident", b"numeric literal": "k_number", b"string literal": "k_string",
+              b"byte literal": "k_byte", b"comment": "k_comment", b"end_of_file": "k_eof"}
+
+def _utf8_first_cp(b):
+    try:
+        return ord(b.decode("utf8")[0])
+    except Exception:
+        return -1
+
+def map_lex_error(msg):
+    """Go message bytes -> (code, arg) of Models/LexerTot.oerr; code 9 = not in the port."""
+    if msg.startswith(b"unrecognized character '") and msg.endswith(b"'"):
+        return 0, _utf8_first_cp(msg[len(b"unrecognized character '"):-1])
+    if msg == b"incomplete hex escape sequence":
+        return 1, 0
+    if msg.startswith(b"unknown escape sequence '\\") and msg.endswith(b"'"):
+        return 2, _utf8_first_cp(msg[len(b"unknown escape sequence '\\"):-1])
+    return 9, 0
+
+def lexer_inputs(rng, seeds, n_mut, n_rand):
+    fixed = [b"", b"\n", b"\xff", b"\xc3", b"\xe2\x82", b"\xe2\x82\xac", b"\xf0\x9f\x98\x80", b"\xf0\x9f\x98", b"\xed\xa0\x80", b"\xc0\x80",
+             b"\xf4\x90\x80\x80", b"\xef\xbf\xbd", b"// c\xffmt\nx", b"/* \xff\xfe */ y", b'"\xff\n\xe2" z', b"'\\\xc3\xa9' '\\\xff' '\\\n'",
+             b"'''", b"'\\'", b"'\\''", b"'\\x41' '\\xZ1' '\\x' '\\q' 'ab' '' '\n'", b'"a\\n\\t\\0\\\\\\x41\\x4\\xZZ\\q\\', b'"unterminated', b'"\\x4"', b'"\\x"', b'"\\"', b'"a\\x4" "b\\xF" "\\x41\\x"',
+             b"/* unterminated", b"/*/ x", b"/**/", b"/***/ */", b"//", b"// x\r\ny", b"a\tb\t\tc\n\td", b"\t\xc3\xa9x", b"x\x0cy\x0bz\x00w",
+             b"-1 - 1 x-1 -0x1F -0b2 0b12 0o8 0x 0xg 1_ 1__2 1_000 1. 1.5 1.e5 1e 1e+ 1e-5 1.5E+3_0 .5 0177 -", b"0x1F_f 0XAB 0o17 0O7 0b1_0 0B1",
+             b"a..b a...b a..=b a.b ..= .. ... .", b"&'a && & ' &'", b"** **= *= * ^= ^ %= % /= / += ++ + -= -- -> - => == = := :: : != ! <= < >= > ?? ? || |",
+             b"let const type if else for in foreach while do match priv return break continue import as mod catch struct fn interface union is enum map",
+             b"lets _x x_1 X9 __ identifier end_of_file", b"@#$`~\\", b"\x7f\x80\xbf\xc0\xc1\xf5\xfe", b"fn main() {\xfd\n    let ", b" \t\r\n\x0c ",
+             "héllo wörld €uro 😀 ok".encode(), "// комментарий\nlet s := \"строка\";".encode(), b"'\\\xf0\x9f\x98\x80'", b"'\xc3\xa9'"]
+    out = list(fixed)
+    for s in seeds[:3]:
+        out.append(s[:700])
+    for _ in range(n_mut):
+        s = rng.choice(seeds)
+        w0 = rng.randrange(max(1, len(s) - 100))
+        b = bytearray(s[w0:w0 + rng.choice([40, 120, 220])])
+        for _ in range(rng.randrange(1, 6)):
+            i = rng.randrange(len(b) + 1)
+            r = rng.random()
+            if r < 0.35:
+                b[i:i] = rng.choice([b"\xff", b"\xc3", b"\xe2\x82", b"\xf0\x9f", "é".encode(), "€".encode(), "😀".encode(), b"\t", b"\r", b"\n",
+                                     b"'", b'"', b"/*", b"*/", b"//", b"\\", b"0x", b"_", b"-", b".", b"@", b"\x00"])
+            elif r < 0.6 and i < len(b):
+                b[i] = rng.randrange(256)
+            elif r < 0.8 and i < len(b):
+                del b[i]
+            else:
+                b[i:i] = rng.choice(POOL)
+        out.append(bytes(b))
+    for _ in range(n_rand):
+        out.append(random_bytes(rng))
+    return out
+
+def lexer_spec_oracle(src, r):
+    """the property itself on the real lexer's output: returns list of (key, what)"""
+    if r is None:
+        return [("lexer:noresult", "no result from the lexer hook")]
+    if r["p"]:
+        if r["p"].startswith("process died"):
+            return [("lexer:died", "lexer hook process died or hung: " + r["p"][:200])]
+        return [("crash:" + frame_key(r["p"]), "lexer panics: " + r["p"].splitlines()[0][:160])]
+    toks = r["t"]
+    bad = []
+    if not toks or toks[-1][0] != "end_of_file" or sum(1 for t in toks if t[0] == "end_of_file") != 1:
+        bad.append(("lexer:eof", "token list does not end with exactly one EOF token"))
+        return bad
+    n = len(src)
+    if toks[-1][4] != n:
+        bad.append(("lexer:index", "EOF token at index %d but the input has %d bytes (index ran past / short of the end)" % (toks[-1][4], n)))
+    prev = 0
+    for t in toks:
+        si, ei = t[4], t[7]
+        if not (prev <= si <= ei <= n) or (t[0] != "end_of_file" and si == ei):
+            bad.append(("lexer:span", "token %r spans [%d,%d) outside the input / overlapping (previous end %d, |src|=%d)" % (t[0], si, ei, prev, n)))
+            break
+        prev = ei
+    lines = src.split(b"\n")
+    for e in r["e"]:
+        l, c = e[1], e[2]
+        if not (1 <= l <= len(lines)) or not (1 <= c <= 2 + len(lines[l - 1]) + 3 * lines[l - 1].count(b"\t")):
+            bad.append(("lexer:errloc", "lexer error located at %d:%d, outside the input" % (l, c)))
+            break
+    return bad
+
+def coq_case(i, src, r):
+    toks = []
+    for t in r["t"]:
+        kind = t[0].encode(); text = bytes.fromhex(t[1])
+        k = KIND_NAMES.get(kind) or (common.coq_bytes(kind) if kind else "(@nil Z)")
+        if kind == b"end_of_file" and text == b"end of file":
+            tx = "eof_text"
+        elif text == kind and kind not in KIND_NAMES:
+            tx = k
+        else:
+            tx = common.coq_bytes(text) if text else "(@nil Z)"
+        toks.append("(%s, %s, (%d, %d, %d), (%d, %d, %d))" % (k, tx, t[2], t[3], t[4], t[5], t[6], t[7]))
+    errs = []
+    for e in r["e"]:
+        code, arg = map_lex_error(bytes.fromhex(e[0]))
+        errs.append("(%d, %d, %d, %d)" % (code, arg, e[1], e[2]))
+    return "(%d, %s, [%s], [%s])" % (i, common.coq_bytes(src) if src else "(@nil Z)", "; ".join(toks), "; ".join(errs))
+
+def lexer_correspondence(run, inputs, results, tag):
+    """returns list of ids where the model and the implementation differ (None if the evaluation itself failed)."""
+    shards = []
+    cur = []; size = 0
+    for i, (src, r) in enumerate(zip(inputs, results)):
+        if r is None or r["p"]:
+            continue
+        cur.append(coq_case(i, src, r)); size += len(src) + 40 * len(r["t"])
+        if size > 40000:
+            shards.append(cur); cur = []; size = 0
+    if cur:
+        shards.append(cur)
+    def ev(k):
+        content = ("From Coq Require Import ZArith List.\nFrom FV Require Import Models.LexerTot gen.Gen_C13.\nImport ListNotations.\n"
+                   "Open Scope Z_scope.\nDefinition cases : list lcase := [\n" + ";\n".join(shards[k]) + "\n].\n"
+                   "Eval vm_compute in (bad_ids lex_ops lex_keywords cases).\n")
+        ok, out = common.coq_eval("c13_%s_%d_%d" % (tag, run.seed, k), content, timeout=600)
+        ids = common.parse_bad_ids(out) if ok else None
+        return ids, out
+    bad = []
+    for ids, out in common.pmap(ev, range(len(shards)), workers=4):
+        if ids is None:
+            return None, out[-1500:]
+        bad += ids
+    return bad, ""
+
+def shrink_bytes(src, pred, budget=60):
+    """greedy delta debugging on a byte string (pred(src) True = still failing)."""
+    cur = src; n = 2; calls = 0
+    while len(cur) >= 2 and calls < budget:
+        chunk = max(1, len(cur) // n); shr = False
+        for i in range(0, len(cur), chunk):
+            cand = cur[:i] + cur[i + chunk:]
+            calls += 1
+            if pred(cand):
+                cur = cand; n = max(n - 1, 2); shr = True
+                break
+            if calls >= budget:
+                break
+        if not shr:
+            if chunk == 1:
+                break
+            n = min(n * 2, len(cur))
+    return cur
+
+# ------------------------------------------------------------------------------------------------ CLI sample
+
+QBE_PROBES = [b"fn main() {\n    let a: []i64 = [1, 2];\n    let i := 0;\n    a[i] += 5;\n}\n"]
+
+import threading
+_CLI_LOCK = threading.Lock()
+
+def cli_case(work, idx, kind, files, mode, _retry=False):
+    d, files_abs = write_case(work, 100000 + idx, files)
+    out = os.path.join(d, "out.wasm" if mode == "wasm" else "out")
+    args = {"t": ["-t"], "native": ["-o", out], "wasm": ["-target", "wasm", "-o", out]}[mode] + ["main.fer"]
+    t0 = time.time()
+    env_libs = common.impl().libs
+    try:
+        p = subprocess.run([common.impl().ferret] + args, cwd=d, stdout=subprocess.PIPE, stderr=subprocess.PIPE, timeout=40 if _retry else 20,
+                           env=dict(os.environ, NO_COLOR="1", FERRET_LIBS_PATH=env_libs))
+        rc, so, se = p.returncode, common.strip_ansi(p.stdout.decode("utf8", "replace")), common.strip_ansi(p.stderr.decode("utf8", "replace"))
+    except subprocess.TimeoutExpired:
+        rc, so, se = -9, "", "TIMEOUT"
+    wall = time.time() - t0
+    if (rc == -9 or wall > 10) and not _retry:
+        # the machine is shared: judge slowness on a second, solitary run
+        with _CLI_LOCK:
+            return cli_case(work, idx, kind, files, mode, _retry=True)
+    text = se + "\n" + so
+    bad = []
+    if rc == -9 or wall > 10:
+        bad.append(("hang", "the CLI did not finish within 10 s (%.1f s)" % wall))
+    elif rc not in (0, 1) or "panic:" in text or "goroutine " in text or "fatal error:" in text:
+        bad.append(("crash:" + frame_key(text), "the CLI crashed (exit status %d): %s" % (rc, (re.search(r"(panic:|fatal error:).*", text) or [text[:120]])[0][:160])))
+    else:
+        tool_err = bool(re.search(r"(?m)^(qbe:.*|.*\bld: (?!warning|NOTE).*|.*collect2: error.*|.*: error: .*|.*undefined reference.*)$", text))
+        bad += check_output(rc == 0, "", text, files_abs, env_libs)
+        if rc == 0 and tool_err:
+            bad.append(("status:success-with-tool-error", "exit status 0 although the back-end tool chain printed an error"))
+        exists = os.path.exists(out)
+        if rc != 0 and mode != "t" and exists:
+            bad.append(("artifact:left-after-failure", "output artifact %s exists after a failed compilation" % os.path.basename(out)))
+        if rc == 0 and mode != "t" and not exists:
+            bad.append(("status:success-without-artifact", "exit status 0 but no output artifact was produced"))
+    return dict(rc=rc, wall=wall, text=text[:3000], bad=bad)
+
+# ------------------------------------------------------------------------------------------------ main
+
+def _dedupe(run):
+    """report each canonical key once (common.Run.violation does not dedupe)."""
+    orig = run.violation
+    seen = set()
+    def v(key, what, replay, no_input=False):
+        if key in seen:
+            return False
+        seen.add(key)
+        return orig(key, what, replay, no_input)
+    run.violation = v
+
+def main(run):
+    _dedupe(run)
+    quick = run.tier == "quick"
+    work = Work()
+    rng = run.rng
+    run.rule = ("two parts. Proved: lexer port + exit-status glue, tables regenerated from the tree. Correspondence: a case is one byte "
+                "string lexed by the real lexer and by the model (tokens kind/text/line/col/index, error kind/position compared). "
+                "Explored (NOT proved): a case is one project directory compiled in-process (hook batch) or by the CLI and judged by the "
+                "spec-side oracle (crash, time, success<=>no error text, located error, artifact); distinct = distinct file contents")
+    run.trusted += ["translator in harness/c13.py (regexp scan of tokenizer.go, tokens.go, numeric.go, compiler.go, main.go, bag.go)",
+                    "hooks/lexer/main.go and hooks/batch/main.go (exported API only); Go regexp engine semantics for the 7 ported patterns "
+                    "(leftmost-first) are tied by the correspondence check, not proved",
+                    "spec-side oracle of harness/c13.py (reading of the emitter's text format: `error...:` lines, `--> file:L:C`)"]
+    run.assumptions = ["crash-freedom / bounded time / located errors / no artifact after failure of parser..emitter are EXPLORED on a seeded "
+                       "malformed stream, not proved (C13_full is stated, not proved)",
+                       "the emitter prints one `error` block per Error diagnostic in the bag (checked by the oracle: Success <=> no error text)",
+                       "bounded time is checked with a 10 s limit on inputs of at most a few KB; the lexer's per-iteration cost is linear in the "
+                       "remaining input (57 regexp searches + a copy of the source), so very large inputs are quadratic — not covered"]
+    run.extra["exploration_not_proof"] = True
+    # ---------------- translator
+    try:
+        ops, kws, ex = gen_coq()
+    except PortOutdated as e:
+        run.violation("translator:C13", "the pattern table / return sites can no longer be regenerated: %s" % e,
+                      {"theorem_file": "coq/Props/C13.v", "translator": "harness/c13.py gen_coq", "error": str(e)}, no_input=True)
+        return
+    run.extra["operator_patterns"] = len(ops); run.extra["keywords"] = len(kws)
+    run.extra["compile_return_sites"] = [dict(line=s["line"], success=s["text"]) for s in ex["sites"]]
+    phase = {}; tph = time.time()
+    # ---------------- proof stage
+    ok = run.proof("Props/C13.v")
+    phase["proof"] = round(time.time() - tph, 1); tph = time.time()
+    proof_broken = not ok
+    # ---------------- seeds and lexer correspondence
+    seeds = load_seeds()
+    lin = lexer_inputs(rng, seeds, 100 if quick else 4000, 80 if quick else 3000)
+    lres = run_lexer_hook(lin)
+    nbadspec = 0
+    for i, (src, r) in enumerate(zip(lin, lres)):
+        run.case(("lex", src), nontrivial=len(src) > 0, sample={"lexer_input": src[:60].decode("latin1"), "tokens": len(r["t"]) if r else None} if i in (12, 40) else None)
+        run.count("lexer:" + ("ascii" if all(c < 128 for c in src) else "non-ascii"))
+        for key, what in lexer_spec_oracle(src, r):
+            if nbadspec < 3:
+                def still(b, key=key):
+                    rr = run_lexer_hook([b])[0]
+                    return any(k == key for k, _ in lexer_spec_oracle(b, rr))
+                small = shrink_bytes(src, still) if len(src) > 1 else src
+                if run.violation(key, "lexer: " + what, {"kind": "lexer", "input_hex": small.hex(), "input_text": small.decode("latin1"),
+                                                         "how": "echo <hex> | hook_lexer  (hooks/lexer/main.go)", "original_hex": src.hex()[:4000]}):
+                    nbadspec += 1
+    bad, log = lexer_correspondence(run, lin, lres, "lex")
+    run.extra["lexer_cases"] = len(lin)
+    if bad is None:
+        run.violation("correspondence:C13-lexer-eval", "the model could not be evaluated on the lexer cases", {"log": log}, no_input=True)
+    elif bad and nbadspec == 0:
+        i = bad[0]
+        def differs(b):
+            rr = run_lexer_hook([b])[0]
+            if rr is None or rr["p"]:
+                return False
+            ids, _ = lexer_correspondence(run, [b], [rr], "shr")
+            return bool(ids)
+        small = shrink_bytes(lin[i], differs, budget=25)
+        rr = run_lexer_hook([small])[0]
+        run.violation("correspondence:C13-lexer", "the real lexer and the proved lexer model disagree on %d of %d inputs (tokens/positions/errors); "
+                      "the theorems of Props/C13.v no longer describe the implementation" % (len(bad), len(lin)),
+                      {"kind": "lexer", "input_hex": small.hex(), "input_text": small.decode("latin1"), "implementation_tokens": rr["t"][:40] if rr else None,
+                       "implementation_errors": rr["e"][:10] if rr else None, "correspondence": "Models/LexerTot.tokenize vs lexer.Tokenize",
+                       "disagreeing_case_ids": bad[:20]}, no_input=True)
+    phase["lexer"] = round(time.time() - tph, 1); tph = time.time()
+    # ---------------- explored part: malformed stream through the in-process driver
+    lexed = [token_spans(s, r) if r and not r["p"] else [] for s, r in zip(seeds, run_lexer_hook(seeds))]
+    nm = 900 if quick else 30000
+    cases = gen_stream(rng, seeds, lexed, nm, nm // 5, 60 if quick else 600, nm // 8)
+    for s in seeds[:6]:
+        cases.append(("seed", {"main.fer": s}))
+    cdir = os.path.join(common.VERIF, "corpus", "C13")        # minimised past failures, replayed on every run
+    if os.path.isdir(cdir):
+        for fn in sorted(os.listdir(cdir)):
+            cases.append(("corpus", {"main.fer": open(os.path.join(cdir, fn), "rb").read()}))
+    reqs = []; meta = []
+    for i, (k, files) in enumerate(cases):
+        d, fa = write_case(work, i, files)
+        mode = "t"
+        if k in ("seed",) or rng.random() < (0.04 if quick else 0.02):
+            mode = rng.choice(["native", "wasm"]) if k != "seed" else "native"
+        out = os.path.join(d, "out.wasm" if mode == "wasm" else "out")
+        reqs.append(dict(id=i, file=os.path.join(d, "main.fer"), mode=mode, out=out))
+        meta.append((k, files, fa, mode, out))
+    t0 = time.time()
+    res = run_batch(reqs, timeout=240 if quick else 1200)
+    run.extra["batch_wall_s"] = round(time.time() - t0, 1)
+    libs = common.impl().libs
+    seen_keys = {}
+    for i, (k, files, fa, mode, out) in enumerate(meta):
+        r = res[i]
+        run.case(("proj", canon_case(files)), nontrivial=True,
+                 sample={"kind": k, "main.fer": (files.get("main.fer") or b"")[:80].decode("latin1"), "ok": r["ok"]} if i in (3, 1000) else None)
+        run.count("stream:" + k.split("+")[0]); run.count("mode:" + mode)
+        run.count("verdict:" + ("crash" if r["panic"] else "accepted" if r["ok"] else "rejected"))
+        bads = check_output(r["ok"], r["panic"], r["out"], fa, libs)
+        if not r["panic"] and mode != "t":
+            if not r["ok"] and os.path.exists(out):
+                bads.append(("artifact:left-after-failure", "output artifact exists after a failed compilation"))
+            if r["ok"] and not os.path.exists(out):
+                bads.append(("status:success-without-artifact", "Success=true but no output artifact was produced"))
+        for key, what in bads:
+            size = sum(len(v or b"") for v in files.values())
+            if key not in seen_keys or size < seen_keys[key][0]:
+                seen_keys[key] = (size, i, what)
+    for key, (size, i, what) in sorted(seen_keys.items()):
+        k, files, fa, mode, out = meta[i]
+        small = files
+        if len(files) == 1 and size > 8 and not key.startswith("hang"):
+            def still(b, key=key, mode=mode):
+                d2, fa2 = write_case(work, 900000 + rng.randrange(10 ** 6), {"main.fer": b})
+                rr = run_batch([dict(id=0, file=os.path.join(d2, "main.fer"), mode=mode, out=os.path.join(d2, "out"))], nproc=1, timeout=60)[0]
+                return any(kk == key for kk, _ in check_output(rr["ok"], rr["panic"], rr["out"], fa2, libs))
+            small = {"main.fer": shrink_bytes(files["main.fer"], still, budget=40)}
+        run.violation(key, what, replay_dict(k, small, mode, {"observed": (res[i]["panic"] or res[i]["out"])[:1500]}))
+    phase["stream"] = round(time.time() - tph, 1); tph = time.time()
+    # ---------------- a sample through the real CLI (exit status, stderr, wall time, output path)
+    ncli = 36 if quick else 400
+    pick = [i for i in range(len(meta)) if meta[i][0] == "seed"] + rng.sample(range(len(meta)), ncli)
+    jobs = [(j, meta[i][0], meta[i][1], ("native" if meta[i][0] == "seed" else rng.choice(["t", "native", "native", "wasm"])), i) for j, i in enumerate(pick)]
+    jobs += [(len(jobs) + j, "qbe-probe", {"main.fer": p}, "native", None) for j, p in enumerate(QBE_PROBES)]
+    cres = common.pmap(lambda jb: cli_case(work, jb[0], jb[1], jb[2], jb[3]), jobs, workers=4)
+    run.extra["cli_runs"] = len(jobs); run.extra["cli_max_wall_s"] = round(max(c["wall"] for c in cres), 2)
+    for (j, k, files, mode, i), c in zip(jobs, cres):
+        run.case(("cli", canon_case(files), mode), nontrivial=True)
+        run.count("cli:" + mode); run.count("cli-exit:%d" % c["rc"])
+        for key, what in c["bad"]:
+            run.violation(key, "CLI: " + what, replay_dict(k, files, mode, {"observed": c["text"][:1500], "exit_status": c["rc"]}))
+        if i is not None and mode == meta[i][3] and not res[i]["panic"] and c["rc"] in (0, 1) and (c["rc"] == 0) != res[i]["ok"]:
+            run.violation("hook-vs-cli", "the in-process driver and the CLI disagree on acceptance", replay_dict(k, files, mode), no_input=False)
+    phase["cli"] = round(time.time() - tph, 1)
+    run.extra["phase_wall_s"] = phase
+    # ---------------- proof failure without a concrete input
+    if proof_broken and not run.violations:
+        where, log = run.proof_failure
+        run.violation("proof:C13:" + where, "Props/C13 no longer checks (%s)" % where,
+                      {"theorem_file": "coq/Props/C13.v", "where": where, "log": log,
+                       "return_sites": ex["sites"], "run_checked": ex["run_checked"]}, no_input=True)
+    elif proof_broken:
+        where, log = run.proof_failure
+        run.extra["proof_failure"] = where
+
+def replay(run, path):
+    j = json.load(open(path))
+    rp = j["replay"]
+    work = Work()
+    if rp.get("kind") == "lexer":
+        src = bytes.fromhex(rp["input_hex"])
+        r = run_lexer_hook([src])[0]
+        print(json.dumps(r)[:2000])
+        bad = lexer_spec_oracle(src, r)
+    else:
+        files = {k: (None if v is None else bytes.fromhex(v["hex"])) for k, v in rp["files"].items()}
+        c = cli_case(work, 0, rp.get("kind", "?"), files, rp.get("mode", "t"))
+        print(c["text"][:3000]); print("exit status", c["rc"])
+        bad = c["bad"]
+    for key, what in bad:
+        print("REPRODUCED:", key, what)
+    return 1 if bad else 0
